@@ -5,10 +5,10 @@ prop=$1; which=$2; shift; shift
 dir=/tmp/agents/${PREFIX}$prop/out
 patch=$dir/patch$which.diff; demo=$dir/demo$which.py
 wt=$(mktemp -d /tmp/cf_XXXXXX)
-git -C /repo worktree add --detach "$wt" HEAD -q || exit 2
+git -C /repo worktree add --detach "$wt" ${REPO_REV:-HEAD} -q || exit 2
 (cd "$wt" && PYTHONPATH="$wt" timeout 600 /venv/bin/python "$demo" >/dev/null 2>&1; echo "demo on pristine: exit $?")
 if ! git -C "$wt" apply "$patch"; then echo "PATCH DOES NOT APPLY"; git -C /repo worktree remove --force "$wt"; exit 2; fi
 (cd "$wt" && PYTHONPATH="$wt" timeout 600 /venv/bin/python "$demo" >/dev/null 2>&1; echo "demo with patch: exit $?")
 (cd "$wt" && PYTHONPATH="$wt" timeout 1500 /venv/bin/python -m pytest -q -p no:cacheprovider --deselect tests/test_map_collection.py::test_maps 2>&1 | tail -1)
 git -C /repo worktree remove --force "$wt"
-[ $# -gt 0 ] && /verif/tools/mutant.sh "$patch" "$@"
+[ $# -gt 0 ] && ${VERIF_DIR:-/verif}/tools/mutant.sh "$patch" "$@"
